@@ -10,8 +10,18 @@ if [ ! -x "$DRV" ]; then
   (cd "$HERE/s4facts" && CARGO_NET_OFFLINE=true cargo build --offline >&2) || { echo "extract: cannot build s4facts" >&2; exit 2; }
 fi
 mkdir -p "$OUT"
-TGT="$(mktemp -d "${TMPDIR:-/tmp}/s4facts-target.XXXXXX")"
-trap 'rm -rf "$TGT"' EXIT
+# The target directory is kept between runs so that the dependencies (compiled by plain rustc, the
+# wrapper only sees workspace members) are not rebuilt every time.  cargo's freshness cache would also
+# skip the *members* - and with them the fact extraction - so their fingerprints are deleted first;
+# callers assert that the fact files were written.  VERIF_COLD=1 uses a fresh directory instead.
+if [ "${VERIF_COLD:-0}" = "1" ]; then
+  TGT="$(mktemp -d "${TMPDIR:-/tmp}/s4facts-target.XXXXXX")"
+  trap 'rm -rf "$TGT"' EXIT
+else
+  TGT="$HERE/../out/target-warm"
+  mkdir -p "$TGT"
+  rm -rf "$TGT"/release/.fingerprint/super_speedy_syslog_searcher-* "$TGT"/debug/.fingerprint/super_speedy_syslog_searcher-* 2>/dev/null
+fi
 FLAG=""
 [ "$PROFILE" = "release" ] && FLAG="--release"
 cd "$SRC" || exit 2
